@@ -2,6 +2,7 @@ package rules
 
 import (
 	"fmt"
+	"go/types"
 
 	"golang.org/x/tools/go/ssa"
 
@@ -11,7 +12,12 @@ import (
 
 // pureFailCallee lists the callees allowed on a failure edge before the
 // return: they build the error value and have no other effect.
+var extraPure func(ssa.CallInstruction) bool
+
 func pureFailCall(c ssa.CallInstruction) bool {
+	if extraPure != nil && extraPure(c) {
+		return true
+	}
 	if flow.CalleeIs(c, "fmt", "Errorf") || flow.CalleeIs(c, "errors", "New") || flow.CalleeIs(c, "fmt", "Sprintf") || flow.CalleeIs(c, "strings", "Join") {
 		return true
 	}
@@ -94,7 +100,7 @@ func failEdgeReturnsError(e *Env, p *load.Program, rule, key string, call *ssa.C
 				}
 			}
 			// the region must not fall back into the success path
-			for _, s := range b.Succs {
+			for _, s := range flow.G(b.Parent()).Succs(b) {
 				if !region[s] {
 					r.Bad(rule, key, p.Pos(ec.If.Pos()), fmt.Sprintf("the failure edge of %s continues into the success path", calleeName(call)))
 					ok = false
@@ -124,7 +130,17 @@ func calleeNameCI(c ssa.CallInstruction) string {
 	if c.Common().IsInvoke() {
 		return c.Common().Method.FullName()
 	}
-	return c.Common().Value.String()
+	// call through a function value: name it by where the value comes from, not by its SSA register
+	if ld, ok := c.Common().Value.(*ssa.UnOp); ok {
+		if fa, ok := ld.X.(*ssa.FieldAddr); ok {
+			if pt, ok := fa.X.Type().Underlying().(*types.Pointer); ok {
+				if st, ok := pt.Elem().Underlying().(*types.Struct); ok {
+					return "(func field " + st.Field(fa.Field).Name() + ")"
+				}
+			}
+		}
+	}
+	return "(func value)"
 }
 
 // callsTo returns the calls of fn that statically target pkgPath.name.
